@@ -554,6 +554,16 @@ def c18(ctx):
     ctx.replay([r['out']], ['C18.'])
 
 
+def c19(ctx):
+    consts = {'Docs': 'QuickDocs' if ctx.quick else 'ThoroughDocs'}
+    r = ctx.mc(f'macro_{ctx.tier}', 'MC_Macro', consts, {}, ['Expands', 'MacroIsParse', 'Dump'], spec='MSpec')
+    ctx.replay([r['out']], ['C19.'])
+    ctx.extra['rule'] = ('one case = one json! invocation enumerated by TLC from the macro-muncher specification (trailing commas after scalars and '
+                         'containers, literal / parenthesized / expression keys, duplicate keys, negative and float literals, expression values), emitted '
+                         'as Rust source, compiled against the current tree and compared with Value::parse_str of the matching text')
+    ctx.assumptions = DEFAULT_ASSUMPTIONS + ['rustc expands macro_rules! as documented; float literals are restricted to spellings that are their own shortest rendering']
+
+
 def c20(ctx):
     r = ctx.mc('kindset', 'MC_KindSet', {}, {}, ['DumpIter', 'DumpSet', 'IterSound'], spec='KSpec', workers=4)
     ctx.replay([r['out']], ['C20.'], extra_args=['--value-kinds', '1'])
@@ -565,7 +575,7 @@ def c20(ctx):
 CHECKS = {
     'C01': c01, 'C02': c02, 'C03': c03, 'C05': c05, 'C07': c07, 'C12': c12,
     'C04': c04, 'C08': c08, 'C09': c09, 'C10': c10, 'C13': c13,
-    'C06': c06, 'C11': c11, 'C14': c14, 'C15': c15, 'C16': c16, 'C17': c17, 'C18': c18,
+    'C06': c06, 'C11': c11, 'C14': c14, 'C15': c15, 'C16': c16, 'C17': c17, 'C18': c18, 'C19': c19,
     'C20': c20,
 }
 
